@@ -87,6 +87,16 @@ def search_witness(unit, failure, seed):
     return dict(reproduced=False, case=case, tried=js.get('tried'), note='contract held on every enumerated / random input')
 
 
+def search_case(case, seed, open_ids):
+    js, err = _call(['search', case, str(seed), ','.join(open_ids)], timeout=600)
+    if js is None or 'error' in js:
+        return dict(reproduced=False, note='witness search unavailable: ' + (err or js.get('error', '')))
+    if js.get('found'):
+        return dict(reproduced=True, case=case, input=js['input'], observed=js['observed'], expected=js['expected'],
+                    tried=js['tried'], replay_cmd=f"{BIN} run {case} '{json.dumps(js['input'])}'")
+    return dict(reproduced=False, case=case, tried=js.get('tried'))
+
+
 def replay_kani_counterexample(h, seed):
     cx = h.get('counterexample')
     case = h.get('replay_case')
